@@ -97,9 +97,10 @@ MemByePad == M("bye", << [c |-> "new"], [c |-> "padding", v |-> 4] >>, FALSE)   
 MemUnkPad == M("unk", << [c |-> "new", type |-> 78, data |-> <<>>, via |-> "new"], [c |-> "padding", v |-> 8] >>, FALSE)
 MemTfb4 == M("tfb", << [c |-> "new", fci |-> [f |-> "nack", adds |-> << 7 >>], owned |-> FALSE], [c |-> "padding", v |-> 4] >>, FALSE)
 MemPfb4 == M("pfb", << [c |-> "new", fci |-> [f |-> "pli"], owned |-> TRUE], [c |-> "padding", v |-> 4] >>, TRUE)
+MemCustS0 == M("custom", << [c |-> "new", fam |-> 2, ssrc |-> A32, some0 |-> TRUE] >>, FALSE)     \* reports no padding as Some(0)
 MemCust4 == M("custom", << [c |-> "new", fam |-> 1, ssrc |-> A32], [c |-> "padding", v |-> 4] >>, FALSE)
 Nest(ms) == M("compound", << [c |-> "new"] >> \o [i \in 1..Len(ms) |-> [c |-> "add_packet", v |-> ms[i]]], FALSE)
-Members  == { MemRR, MemBye4, MemByeBad, MemUnk, MemCust, MemSdes4, MemByePad, MemUnkPad, MemTfb4, MemPfb4, MemCust4, Nest(<<>>), Nest(<< MemRR >>), Nest(<< MemRR, MemBye4 >>) }
+Members  == { MemRR, MemBye4, MemByeBad, MemUnk, MemCust, MemSdes4, MemByePad, MemUnkPad, MemTfb4, MemPfb4, MemCust4, MemCustS0, Nest(<<>>), Nest(<< MemRR >>), Nest(<< MemRR, MemBye4 >>) }
 
 NewsParts(k) == IF k \in {"tfb", "pfb"} THEN 5 ELSE 1
 News(k, i) ==
